@@ -9,6 +9,10 @@ import argparse, json, os, shutil, subprocess, sys, tempfile, concurrent.futures
 
 HERE = os.path.dirname(os.path.dirname(os.path.abspath(__file__)))
 
+class StaleMutant(Exception):
+    pass
+
+
 def prepare(m, root):
     d = os.path.join(root, m["name"].replace("/", "_"))
     os.makedirs(d)
@@ -22,7 +26,7 @@ def prepare(m, root):
             p = os.path.join(d, e["file"])
             s = open(p).read()
             if s.count(e["old"]) != 1:
-                raise SystemExit("mutant %s: pattern occurs %d times in %s" % (m["name"], s.count(e["old"]), e["file"]))
+                raise StaleMutant("pattern occurs %d times in %s" % (s.count(e["old"]), e["file"]))
             open(p, "w").write(s.replace(e["old"], e["new"]))
     return d
 
@@ -69,7 +73,12 @@ def main():
     missed = 0
     try:
         for m in muts:
-            d = prepare(m, root)
+            try:
+                d = prepare(m, root)
+            except StaleMutant as e:
+                print("%-44s STALE (%s) - the code it edits has changed; update tools/mutants.json" % (m["name"], e))
+                shutil.rmtree(os.path.join(root, m["name"].replace("/", "_")), ignore_errors=True)
+                continue
             ok, tail = (True, "skipped") if a.no_suite else suite_ok(d)
             res = []
             for prop in m["props"]:
